@@ -161,7 +161,7 @@ if __name__ == '__main__':
     text, regions, infos = gen.gen_build(bname)
     path = os.path.join(outdir, bname + '.rs')
     open(path, 'w').write(text)
-    r = run_verus(path, modules=mods)
+    r = run_verus(path, modules=mods, extra=(['--no-erasure-check'] if units.BUILDS[bname].get('usize_bytes', 8) != 8 else None))
     a = analyse(text, regions, r)
     print('verified=%d failed=%d wall=%.1fs hard=%d' % (a['verified'], a['failed'], r.wall, len(a['hard_errors'])))
     seen = set()
